@@ -168,9 +168,10 @@ class Ctx:
                 continue
             seen.append(r)
             txt = strip_comments(open(p).read())
-            for m in re.finditer(r"From\s+GT\s+Require\s+(?:Import|Export)?\s*([^.]*(?:\.[A-Za-z_][^.\s]*)*)\s*\.(?:\s|$)", txt):
+            for m in re.finditer(r"From\s+GT\s+Require\s+(.*?)\.(?=\s|$)", txt, re.S):
                 for name in m.group(1).split():
-                    todo.append(name.replace(".", "/") + ".v")
+                    if name not in ("Import", "Export"):
+                        todo.append(name.replace(".", "/") + ".v")
             for m in re.finditer(r"Require\s+(?:Import|Export)\s+GT\.([\w.]+)\s*\.", txt):
                 todo.append(m.group(1).replace(".", "/") + ".v")
         return sorted(seen)
@@ -295,6 +296,37 @@ class Ctx:
                     if m:
                         nt += int(m.group(1))
         return bad, nt, None
+
+    def translator_tie(self, xlate_cmd, args, gen_name, tie_name):
+        """(T) tie: build and run a translator from harness/cmd/<xlate_cmd> on the scratch copy
+        of the current tree, compile the regenerated <gen_name>.v and the committed tie file
+        coq/ties/<tie_name>.v against it.  Returns (ok, detail)."""
+        binp, log = self.build_harness(xlate_cmd)
+        if not binp:
+            return False, "translator build failed:\n" + log[-2000:]
+        out = os.path.join(self.gen, gen_name + ".v")
+        rc, o1 = sh([binp] + [str(a) for a in args] + ["-out", out], timeout=300)
+        if rc != 0:
+            return False, "translator failed:\n" + o1[-2000:]
+        rc, o2 = self.coq_eval(gen_name, open(out).read())
+        if rc != 0:
+            return False, "regenerated %s.v does not compile (source left the translator's subset?):\n%s\n%s" % (
+                gen_name, o1[-1000:], o2[-2000:])
+        tie_src = open(os.path.join(COQ, "ties", tie_name + ".v")).read()
+        bad = FORBIDDEN.search(strip_comments(tie_src))
+        if bad:
+            return False, "forbidden vernacular in tie file: " + bad.group(0)
+        rc, o3 = self.coq_eval(tie_name, tie_src)
+        if rc != 0:
+            return False, "tie %s no longer checks against the regenerated model:\n%s" % (tie_name, o3[-2500:])
+        if "Closed under the global context" not in o3:
+            return False, "tie %s depends on axioms:\n%s" % (tie_name, o3[-1500:])
+        n = len(OBLIG.findall(strip_comments(tie_src)))
+        self.cov["obligations"] = self.cov.get("obligations", 0) + n
+        self.cov["discharged"] = self.cov.get("discharged", 0) + n
+        self.cov["translator_tie"] = {"translator": "harness/cmd/" + xlate_cmd, "regenerated": gen_name + ".v",
+                                      "tie_file": "coq/ties/%s.v" % tie_name, "lemmas": n}
+        return True, "%d tie lemmas" % n
 
     # ---------------- verdicts
     def report(self, replay, features=None, failing_input=True):
